@@ -27,6 +27,7 @@ type Case struct {
 // Info is what the classifier needs.
 type Info struct {
 	Wrap, Full, Empty, BigFill, Extreme bool
+	BigFull                             bool // a buffer of more than 300 slots was written to the brim
 }
 
 // Run executes the case against the real buffer and the slice model.
@@ -42,7 +43,24 @@ func run(c Case, info *Info) *vstat.Violation {
 	rpos, wpos, n1 := 0, 0, c.Cap+1 // classification only: where the indices of an array of cap+1 would be
 	sentinel := new(int)
 	*sentinel = -1
-	for i, op := range c.Ops {
+	// a bulk op "f"(N) stands for N single Write calls (used to bring big buffers to the brim)
+	ops := c.Ops
+	for _, op := range c.Ops {
+		if op.K == "f" {
+			ops = make([]Op, 0, len(c.Ops))
+			for _, o := range c.Ops {
+				if o.K == "f" {
+					for j := 0; j < o.N; j++ {
+						ops = append(ops, Op{K: "w"})
+					}
+				} else {
+					ops = append(ops, o)
+				}
+			}
+			break
+		}
+	}
+	for i, op := range ops {
 		where := fmt.Sprintf("op #%d %s(%d) cap=%d", i, op.K, op.N, c.Cap)
 		switch op.K {
 		case "w":
@@ -52,6 +70,9 @@ func run(c Case, info *Info) *vstat.Violation {
 			err := rb.Write(p)
 			if len(model) == c.Cap {
 				info.Full = true
+				if c.Cap > 300 {
+					info.BigFull = true
+				}
 				if err == nil {
 					return vstat.V("ring:write-on-full-accepted", "%s: Write succeeded with Len==Cap", where)
 				}
@@ -179,6 +200,9 @@ func run(c Case, info *Info) *vstat.Violation {
 		if rb.Cap() != c.Cap {
 			return vstat.V("ring:cap", "after %s: Cap()=%d want %d", where, rb.Cap(), c.Cap)
 		}
+		if c.Cap > 300 && op.K == "w" && i%64 != 0 {
+			continue // big buffers: the O(cap) slot sweep follows every non-Write op and every 64th Write
+		}
 		if buf, r, w, ok := slots(rb); ok {
 			// every slot outside the live window [r, r+len) must hold the zero value
 			for j := range buf {
@@ -247,6 +271,9 @@ func (i Info) Classes() []string {
 	}
 	if i.Extreme {
 		c = append(c, "skip_argument_beyond_32_bits")
+	}
+	if i.BigFull {
+		c = append(c, "big_buffer_written_to_the_brim")
 	}
 	return c
 }
